@@ -46,6 +46,11 @@ def dedicated(rng, thorough):
         h = bytes(rng.randrange(256) for _ in range(k)).hex().encode()
         out += [b" " + h + b" ", b" " + h.upper() + b" ", b"FromHexString('" + h + b"')", b"[System.Convert]::FromHexString('" + h.upper() + b"') -bxor 65"]
     out += [b"12345678901234567890ABCDEFABCDEFAB", b"1234567890123456789012", b"abcdefabcdefabcdefabcdef1", b"ABCDEFabcdefABCDEFabcdef"]
+    for key in (1, 35, 255):
+        pl = bytes([key, key]) + b"MZ\x90\x00payload" + bytes([key])
+        out.append(b"FromBase64String('" + base64.b64encode(pl) + b"') -bxor %d" % key)
+        out.append(b"FromHexString('" + pl.hex().encode() + b"') -xor %d" % key)
+        out.append(b",".join(b"%d" % c for c in (pl * 40)[:505]) + b" -bxor %d" % key)
     for cnt in (500, 501, 502):
         items = [rng.choice([b"0x%02x" % rng.randrange(256), b"%d" % rng.randrange(256)]) for _ in range(cnt)]
         out.append(b"$b = " + b",".join(items) + b" ;")
